@@ -195,3 +195,18 @@ Proof.
   intros H. unfold map, map_result; cbn [ranges inverted].
   pose proof (map_go_shift rs 0 0 p a 0 H). lia.
 Qed.
+
+(* Positions in the same untouched gap keep their distance: untouched content is moved rigidly. *)
+Lemma all_before_le rs : forall p q, all_before rs p -> p <= q -> all_before rs q.
+Proof. induction rs as [|[[s x] y] rs IH]; simpl; intros p q H Hpq; auto. destruct H as [[? ?] H]. split; [lia|eauto]. Qed.
+
+Theorem map_gap_rigid pre post p q a b :
+  all_before pre p -> p <= q ->
+  (match post with [] => True | (s, _, _) :: _ => q < s end) ->
+  let m := {| ranges := pre ++ post; inverted := false |} in
+  map m q a - map m p b = q - p.
+Proof.
+  intros Hb Hpq Hq m. unfold m.
+  rewrite (rule_outside pre post q a); [|eapply all_before_le; eauto|auto].
+  rewrite (rule_outside pre post p b); [lia|auto|destruct post as [|[[s x] y] post]; auto; lia].
+Qed.
